@@ -18,7 +18,7 @@ type pElem struct {
 
 type pattern [][]pElem
 
-var classRegex = map[string]string{"dig": `\d+`, "all": `.*`, "rest1": `.+`, "word": `\w+`}
+var classRegex = map[string]string{"dig": `\d+`, "all": `.*`, "rest1": `.+`, "word": `\w+`, "ab": `(?:a|b)+`}
 
 const litAlphabet = "abc10._-xy"
 
